@@ -261,6 +261,18 @@ func GenPlan(g G, adversarial bool) Plan {
 	for _, k := range []string{"for-each-ref", "rev-list", "batch-check", "batch"} {
 		pl.Peers[k] = GenPeerPlan(g, k, adversarial)
 	}
+	if g.Chance(1, 3, "goyields") {
+		// a schedule for the yield points inside git-sizer itself: mostly
+		// "go on", now and then "let the others run first"
+		n := g.Int(2, 24, "ngoyields")
+		for i := 0; i < n; i++ {
+			y := 0
+			if g.Chance(1, 3, "goyield") {
+				y = g.Int(1, 3, "goyieldn")
+			}
+			pl.GoYields = append(pl.GoYields, y)
+		}
+	}
 	return pl
 }
 
